@@ -29,7 +29,7 @@ impl<'a> Cursor<'a> {
 }
 
 /// bytes -> game case. Layout: [kind][n_picks][same_types][side][mn] picks*3 ... then (sel_hi, sel_lo, bias)*
-pub fn decode_game(data: &[u8]) -> (Case, Profile) {
+pub fn decode_game(data: &[u8], allow_hanging: bool) -> (Case, Profile) {
     let mut c = Cursor::new(data);
     let kind = c.u8();
     let profile = match kind >> 6 {
@@ -47,6 +47,16 @@ pub fn decode_game(data: &[u8]) -> (Case, Profile) {
             let sel = c.u8();
             Start::Pos(gen::near_immobile_pos(x & 1 == 0, &imm, sel, x & 2 == 0, c.u8()))
         }
+        6 => {
+            let mut sel = [0u8; 8];
+            for x in sel.iter_mut() {
+                *x = c.u8();
+            }
+            let n = (c.u8() % 6) as usize;
+            let extras: Vec<(u8, u8, u8)> = (0..n).map(|_| (c.u8(), c.u8(), c.u8())).collect();
+            let flags = c.u8();
+            Start::Pos(gen::motif_pos(&sel, &extras, flags & 1 == 0, flags & 6 == 0))
+        }
         k => {
             let full = k == 2;
             let n = if full { 32 } else { 1 + (c.u8() % 24) as usize };
@@ -54,7 +64,7 @@ pub fn decode_game(data: &[u8]) -> (Case, Profile) {
             let gold_to_move = c.u8() & 1 == 0;
             let mn_sel = c.u8();
             let picks: Vec<(u8, u8, u8)> = (0..n).map(|_| (c.u8(), c.u8(), c.u8())).collect();
-            Start::Pos(gen::build_pos(&RawPos { full, same_types, picks, gold_to_move, mn_sel, keep_hanging: false, last_rabbits: k == 5 }, PosMode::GameStart))
+            Start::Pos(gen::build_pos(&RawPos { full, same_types, picks, gold_to_move, mn_sel, keep_hanging: allow_hanging && k == 7 && mn_sel & 1 == 1, last_rabbits: k == 5 }, PosMode::GameStart))
         }
     };
     let mut ops = vec![];
@@ -109,7 +119,8 @@ pub struct FuzzFail {
 /// Runs the structured game target on one input. `only` restricts the oracle to one property's
 /// observer (used when converting an artifact for a specific check), None = all.
 pub fn game_target(data: &[u8], only: Option<&str>) -> Result<(), FuzzFail> {
-    let (case, profile) = decode_game(data);
+    let allow_hanging = only.map(|id| crate::registry::HANGING_OK.contains(&id)).unwrap_or(false);
+    let (case, profile) = decode_game(data, allow_hanging);
     let opts = WalkOpts { profile, expand: None, follow_norep: false, inject: crate::drive::Inject::No };
     let mut st = Stats::default();
     st.frozen = true;
